@@ -513,6 +513,7 @@ func TestVerifC03(t *testing.T) {
 	c03Integers(c)
 	c03Special(c)
 	c03Shortest(c, mc.Pick(c, 64, 1024), mc.Pick(c, 20000, 200000))
+	mc.FirstCalls(c, c03Calls, "TestVerifC03Fresh", "VERIF_C03_CALLS")
 	if code := c.Finish(); code != 0 {
 		os.Exit(code)
 	}
